@@ -314,7 +314,7 @@ def site(mi: ModuleInfo, node: ast.AST, func: str = "") -> str:
 # (x.size() / x.shape, torch.round(x) / x.round(), keyword / positional arguments of package functions, 1 << n / 2 ** n ...).
 # ----------------------------------------------------------------------------------------------
 _METHOD_FORM = {"round", "clamp", "clip", "abs", "amax", "amin", "squeeze", "reshape", "permute", "t", "transpose", "flatten", "neg", "negative", "contiguous", "unsqueeze",
-                "div", "true_divide", "mul", "multiply", "sub", "subtract", "add", "clamp_min", "clamp_max", "floor", "ceil", "trunc", "nan_to_num", "isnan", "all", "any", "eq", "ne", "sum", "mean", "to"}
+                "clamp_min", "clamp_max", "floor", "ceil", "trunc", "nan_to_num", "isnan", "all", "any", "eq", "ne", "sum", "mean", "to"}
 _SIGNATURES: Dict[str, ast.FunctionDef] = {}  # unique package function / constructor names -> def (filled by set_active_repo)
 
 
@@ -357,8 +357,8 @@ class _Canon(ast.NodeTransformer):
             if f.attr in arith and not node.keywords and not any(isinstance(a, ast.Starred) for a in node.args):
                 if isinstance(f.value, ast.Name) and f.value.id == "torch" and len(node.args) == 2:
                     return ast.BinOp(left=node.args[0], op=arith[f.attr](), right=node.args[1])
-                if not (isinstance(f.value, ast.Name) and f.value.id in ("torch", "operator", "np", "math")) and len(node.args) == 1:
-                    return ast.BinOp(left=f.value, op=arith[f.attr](), right=node.args[0])
+                if not (isinstance(f.value, ast.Name) and f.value.id in ("torch", "operator", "np", "math")) and len(node.args) == 1 and f.attr != "add":
+                    return ast.BinOp(left=f.value, op=arith[f.attr](), right=node.args[0])  # (`.add` is left alone: set.add)
             cmpf = {"eq": ast.Eq, "ne": ast.NotEq, "lt": ast.Lt, "le": ast.LtE, "gt": ast.Gt, "ge": ast.GtE}
             if f.attr in cmpf and not node.keywords and not any(isinstance(a, ast.Starred) for a in node.args):
                 if isinstance(f.value, ast.Name) and f.value.id == "torch" and len(node.args) == 2:
